@@ -19,6 +19,8 @@ var passwordTypes = map[string]bool{"CreateUserStatement": true, "SetPasswordUse
 
 func rulesC15(c *Ctx) {
 	p := c.P
+	// the patterns find the end of the quoted password at the first unescaped quote
+	stringEndRule(c, "C15.strend")
 	// ---- no reader ----
 	c.Rule("C15.noreader", "the Password fields of CreateUserStatement and SetPasswordUserStatement are stored by their parse functions and read nowhere in the package: no printer, formatter or encoder can leak what it never loads; statements holding a password are never handed to fmt by value")
 	nStore, nRead := 0, 0
